@@ -97,6 +97,7 @@ type fx struct {
 	retCount    int
 	warnings    []string
 	usedSpecs   map[string]bool
+	ghosts      map[string]*Val
 	hide        map[string]bool
 }
 
@@ -150,7 +151,7 @@ func (x *fx) oblige(kind, label, goal, desc string) *Oblig {
 	}
 	key := kind + ":" + label
 	x.counters[key]++
-	name := fmt.Sprintf("%s#%s", x.c.Name, key)
+	name := fmt.Sprintf("%s#%s", x.cname(), key)
 	if n := x.counters[key]; n > 1 || kind == "safe" || kind == "frame" || kind == "pre" {
 		name = fmt.Sprintf("%s@%d", name, x.counters[key])
 	}
@@ -158,6 +159,13 @@ func (x *fx) oblige(kind, label, goal, desc string) *Oblig {
 	x.obs = append(x.obs, o)
 	x.assumeAt(x.curPC, goal)
 	return o
+}
+
+func (x *fx) cname() string {
+	if x.c.Variant != "" {
+		return x.c.Name + "~" + x.c.Variant
+	}
+	return x.c.Name
 }
 
 func (x *fx) pkgShort() string {
@@ -230,7 +238,7 @@ func newFx(g *Gen, fn *ssa.Function, c *Contract, pass int) *fx {
 		written: map[int]map[string]bool{}, havocAllIn: map[int]bool{},
 		vals: map[ssa.Value]*Val{}, freshRefs: map[string]bool{}, closures: map[ssa.Value]*ssa.MakeClosure{},
 		blockPC: map[int]string{}, blockMem: map[int]*memNode{}, headerVal: map[int]map[string]*Val{}, measures: map[int][]string{},
-		hide: c.Hide,
+		hide: c.Hide, ghosts: map[string]*Val{},
 		abstracted: map[string]bool{}, assumptions: map[string]bool{}, calls: map[string]bool{}, trusted: map[string]bool{},
 	}
 	x.memSort["$top"] = "Int"
